@@ -20,7 +20,7 @@
    Definitions only, no proofs.  The model is faithful to the code as it is: every NaN is
    written as the NAN discriminant and read back as the canonical quiet NaN; the column count
    is truncated to u16 and byte lengths to u32 exactly as `as u16` / `as u32` do.
-   History: before /repo commit a939896 the writer sent Float(+-0.0) to the data-less ZERO
+   History: before /repo commit d11dc56 the writer sent Float(+-0.0) to the data-less ZERO
    discriminant, which reads back as Int(0) (finding F-C33-1, fixed); now +-0.0 falls through
    to the POS_FLOAT arm (`-0.0 < 0.0` is false) and keeps its 8 bit-pattern bytes. *)
 From Coq Require Import ZArith List Bool.
